@@ -17,12 +17,12 @@ PLANS = {
         "C09": [("tagged", "tagged", 3, 0, 0, 7000, "plain"), ("tagged-hap", "tagged", 3, 0, 0, 7000, "hap")],
     },
     "thorough": {
-        "C01": [("valid", "valid", 2, 8, 0, None), ("perturbed", "perturb", 1, 4, 2, 60000), ("valid3", "valid", 3, 0, 0, 40000)],
-        "C02": [("valid", "valid", 2, 10, 0, None), ("valid3", "valid", 3, 0, 0, 60000)],
-        "C07": [("valid", "valid", 2, 10, 0, None), ("perturbed", "perturb", 1, 2, 1, 20000)],
+        "C01": [("valid", "valid", 2, 8, 0, 25000), ("perturbed", "perturb", 1, 4, 2, 12000), ("valid3", "valid", 3, 0, 0, 8000)],
+        "C02": [("valid", "valid", 2, 10, 0, 30000), ("valid3", "valid", 3, 0, 0, 12000)],
+        "C07": [("valid", "valid", 2, 10, 0, 30000), ("perturbed", "perturb", 1, 2, 1, 8000)],
         "C08": [("null", "null", 0, 3000, 0, None)],
-        "C11": [("valid", "valid", 2, 10, 0, None), ("valid3", "valid", 3, 0, 0, 40000)],
-        "C09": [("tagged", "tagged", 3, 2, 0, 40000, "plain"), ("tagged-hap", "tagged", 3, 2, 0, 40000, "hap"), ("tagged4", "tagged", 4, 0, 0, 40000, "hap")],
+        "C11": [("valid", "valid", 2, 10, 0, 30000), ("valid3", "valid", 3, 0, 0, 10000)],
+        "C09": [("tagged", "tagged", 3, 2, 0, 20000, "plain"), ("tagged-hap", "tagged", 3, 2, 0, 20000, "hap"), ("tagged4", "tagged", 4, 0, 0, 12000, "hap")],
     },
 }
 TEXT = {
